@@ -624,6 +624,7 @@ func structStream(c *vh.Ctx, m *vh.Model) {
 	fuseStream(c, m)
 	ctxStream(c, m, inst, "")
 	resolveStream(c, m)
+	typeTieStream(c, m)
 	if os.Getenv("C16_NOPROBE") == "" { // development aid: see only what the differential run reports
 		scalarStream(c, m, inst, nil)
 	}
